@@ -626,6 +626,61 @@ def window_details(prog, res, f, rule="R-WINDOW"):
         res.oblige(rule, inst, True, "", g.loc())
 
 
+def commit_own(prog, res, f, rule="R-WINDOW"):
+    """The filter commits (channel_write_unmap of its output) only a region it
+    has mapped itself: every such call in process_data and in the worker is
+    reached only through an edge on which the accumulator pointer - the
+    object that receives the filter's channel_write_map result - is non-NULL.
+    (The source writes into the same ring when averaging is off; committing
+    without an own mapping would publish the source's half-written frame.)"""
+    # the parameter of process_data that receives the mapping
+    acc_p = None
+    for b, i, st_ in f.all_stmts():
+        if any(c.get("fn") == "channel_write_map" for c in ir.calls_in(st_)):
+            for lv, op, rhs, w in ir.writes_of(st_):
+                root, ch = ir.field_chain(lv)
+                if lv.get("k") in ("deref", "idx") and isinstance(root, dict) and root.get("k") == "var" and "p" in root:
+                    acc_p = root
+    if acc_p is None:
+        raise AnalysisBroken("%s: the parameter receiving the accumulator mapping was not found" % f.name)
+    w = prog.func("video_filter_thread")
+    k = [j for j, p in enumerate(f.params) if p["id"] == acc_p["id"]][0]
+    objs = set()
+    for b, i, st_ in w.all_stmts():
+        for c in ir.calls_in(st_):
+            if c.get("fn") == f.name and k < len(c["args"]):
+                a = ir.strip(c["args"][k])
+                if isinstance(a, dict) and a.get("k") == "addr":
+                    objs.add(ir.ap(a["e"]))
+    targets = [(f, {"*" + acc_p["n"], acc_p["n"] + "[0]"})] + ([(w, objs)] if len(objs) == 1 else [])
+    for g, names in targets:
+        def nonnull(cn, lab, blk, names=names):
+            c0 = ir.strip(cn)
+            neg = False
+            while isinstance(c0, dict) and c0.get("k") == "un" and c0.get("op") == "!":
+                neg = not neg
+                c0 = ir.strip(c0["e"])
+            if isinstance(c0, dict) and c0.get("k") == "bin" and c0.get("op") in ("!=", "==") and (ir.is_const(c0["r"], 0) or ir.is_const(c0["l"], 0)):
+                x = c0["l"] if ir.is_const(c0["r"], 0) else c0["r"]
+                if ir.ap(x) in names:
+                    return (lab == "true") == ((c0["op"] == "!=") != neg)
+                return False
+            if ir.ap(c0) in names:
+                return (lab == "true") != neg
+            return False
+        for b, i, st_ in g.all_stmts():
+            if any(c.get("fn") == "channel_write_unmap" for c in ir.calls_in(st_)):
+                maps = lambda q: any(c.get("fn") == "channel_write_map" for c in ir.calls_in(q))
+                dom = paths.edge_dominated(g, (b.id, i), nonnull)[0]
+                inst = "%s: the commit at line %s happens only with an own mapping" % (g.name, st_.get("line"))
+                if dom:
+                    res.oblige(rule, inst, True, "reached only where %s is non-NULL" % sorted(names)[0], g.loc(st_))
+                else:
+                    res.fail(rule, inst, "R-WINDOW|%s|commit-own" % g.name, g.loc(st_),
+                             "%s can call channel_write_unmap on the output ring although the filter holds no mapping of its own (%s may be NULL): with averaging off the source writes into that ring, and its reserved, not yet filled frame is published"
+                             % (g.name, sorted(names)[0]))
+
+
 def pair_reader(prog, res, f, rule="PAIR"):
     opens = [(b.id, i, s) for b, i, s in f.all_stmts() if any(c.get("fn") == "channel_read_map" for c in ir.calls_in(s))]
     n = 0
@@ -666,6 +721,10 @@ def run(ctx, res):
     window_rules(prog, res, f)
     window_init(prog, res, f)
     res.guard(window_details, prog, res, f)
+    res.guard(commit_own, prog, res, f)
+    from .. import runtimerules as RR_
+    res.guard(RR_.rule_drain_after_stop, prog, res, "video_filter_thread", {"process_data"})
+    res.require_min("R-DRAIN", 1)
     res.guard(kernels, prog, res)
     n = pair_reader(prog, res, f)
     from .. import runtimerules as RR
